@@ -78,7 +78,8 @@ def ensure_facts(repo=REPO, verbose=True):
     os.makedirs(CACHE, exist_ok=True)
     fd = facts_dir(repo)
     want = source_hash(repo)
-    lock_path = os.path.join(CACHE, "extract.lock")
+    # one lock per analysed tree (cargo serialises concurrent users of the shared target dir itself)
+    lock_path = fd + ".lock"
     with open(lock_path, "w") as lock:
         fcntl.flock(lock, fcntl.LOCK_EX)
         stamp = os.path.join(fd, "STAMP.json")
